@@ -60,6 +60,7 @@ def run_job(job):
         if patch is not None:
             undo = getattr(mod, patch)()
         direct = opts.pop("direct", False)
+        out["expect_cex"] = bool(opts.pop("expect_cex", False))
         trace = opts.pop("trace", True)
         if trace:
             sys.setprofile(_profiler)
@@ -68,6 +69,8 @@ def run_job(job):
                 opts.pop("seed", None)
                 res = fn(**job.params, **opts)
             else:
+                opts.setdefault("time_budget", float(os.environ.get("VERIF_JOB_BUDGET", "0")) or
+                                (300.0 if os.environ.get("VERIF_TIER_ACTIVE", "quick") == "quick" else 2400.0))
                 res = sx.explore(fn, job.params, **opts)
         finally:
             sys.setprofile(None)
@@ -170,6 +173,10 @@ def finish(pid, tier, seed, mod, results, t0, extra_cov=None, assumptions=None):
     """Aggregate job results, replay counterexamples, write evidence, print verdict lines,
     return the exit code."""
     known = load_known()
+    # seeded-fault self-test jobs: must yield a counterexample; their results are not part of the verdict
+    selftest_rows = [r for r in results if r.get("expect_cex")]
+    results = [r for r in results if not r.get("expect_cex")]
+    selftest_missed = [r["name"] for r in selftest_rows if "error" in r or not r.get("cex")]
     errors = [r for r in results if "error" in r]
     tot = {"paths": 0, "decisions": 0, "feas_queries": 0, "queries": 0, "query_time": 0.0,
            "feas_time": 0.0, "merged_calls": 0, "merged_paths": 0, "aborted_paths": 0}
@@ -206,6 +213,7 @@ def finish(pid, tier, seed, mod, results, t0, extra_cov=None, assumptions=None):
     # ---- replay
     os.makedirs(os.path.join(VERIF, "replays"), exist_ok=True)
     violations, known_hits, nonrepro = [], {}, []
+    candidates_unconfirmed = []
     seen_sig = set()
     for cx in cexs:
         rp = mod.replay(cx)
@@ -214,6 +222,13 @@ def finish(pid, tier, seed, mod, results, t0, extra_cov=None, assumptions=None):
             continue
         rr = run_replay_script(rp["script"])
         if not rr["signatures"]:
+            cand = rp.get("candidate") or (isinstance(cx.get("info"), dict) and cx["info"].get("candidate"))
+            if cand and rr["status"] == "ok":
+                # witness of a sufficient-condition / abstraction-level obligation that does not violate the
+                # property as stated on the real API: inconclusive, never an alarm
+                candidates_unconfirmed.append("%s: %s (witness %s did not reproduce on the real API)" % (
+                    cx.get("job"), cx.get("label"), json.dumps(cx.get("inputs"), default=str)[:200]))
+                continue
             nonrepro.append({"cex": cx, "replay": rr})
             continue
         for sig in rr["signatures"]:
@@ -270,12 +285,15 @@ def finish(pid, tier, seed, mod, results, t0, extra_cov=None, assumptions=None):
         "bounds": getattr(mod, "BOUNDS", {}).get(tier, getattr(mod, "BOUNDS", {})),
         "outside_bounds": getattr(mod, "OUTSIDE", []),
         "stubs": getattr(mod, "STUBS", []),
-        "inconclusive": n_inconclusive,
-        "inconclusive_messages": inconclusive[:10],
+        "inconclusive": n_inconclusive + len(candidates_unconfirmed),
+        "inconclusive_messages": (inconclusive + candidates_unconfirmed)[:10],
+        "candidate_witnesses_not_reproduced": len(candidates_unconfirmed),
         "non_reproducing_models": len(nonrepro),
         "known_findings_hit": sorted(known_hits),
         "jobs": _toprows(jobrows),
         "job_errors": [r["error"][-600:] for r in errors][:5],
+        "seeded_fault_selftests": {"run": len(selftest_rows), "caught": len(selftest_rows) - len(selftest_missed),
+                                   "missed": selftest_missed},
         "trusted_base": ["CPython executing the real code on symx proxies", "z3 %s" % _z3v(),
                          "interval/known-bits guard tying bit-vectors to Python ints"],
         "checker_cmd": "./check %s --tier %s" % (pid, tier),
@@ -298,7 +316,7 @@ def finish(pid, tier, seed, mod, results, t0, extra_cov=None, assumptions=None):
               pid, tier, len(results), tot["paths"], n_ob, n_nontrivial, verdicts["unsat"],
               verdicts["sat"], verdicts["unknown"], n_inconclusive,
               tot["query_time"] + tot["feas_time"], time.time() - t0))
-    for m in inconclusive[:5]:
+    for m in (inconclusive + candidates_unconfirmed)[:8]:
         print("INCONCLUSIVE %s" % m)
     for sig, kf in sorted(known_hits.items()):
         print("KNOWN-FINDING: property=%s %s" % (pid, kf.get("description", sig)))
@@ -313,6 +331,9 @@ def finish(pid, tier, seed, mod, results, t0, extra_cov=None, assumptions=None):
     if nonrepro:
         for n in nonrepro[:3]:
             print("HARNESS-ERROR non-reproducing model: %s" % json.dumps(n, default=str)[:1500], file=sys.stderr)
+        rc = EXIT_HARNESS
+    if selftest_missed:
+        print("HARNESS-ERROR seeded-fault self-test not caught: %s" % selftest_missed, file=sys.stderr)
         rc = EXIT_HARNESS
     if n_ob == 0 and not errors:
         print("HARNESS-ERROR no obligation reached (vacuous run)", file=sys.stderr)
